@@ -20,10 +20,13 @@ EPOCH = "pymeeus.Epoch:Epoch"
 PLANETS = ["Mercury", "Venus", "Mars", "Jupiter", "Saturn", "Uranus", "Neptune"]
 
 
+from pyvc.repo import REPO as _REPO
+
+
 def finder_list():
     out = []
     for pl in PLANETS:
-        tree = ast.parse(open(os.path.join("/repo/pymeeus", pl + ".py")).read())
+        tree = ast.parse(open(os.path.join(_REPO, "pymeeus", pl + ".py")).read())
         for cls in [n for n in tree.body if isinstance(n, ast.ClassDef)]:
             for f in cls.body:
                 if isinstance(f, ast.FunctionDef) and "k = round((365.2425 * y + 1721060.0 - a) / b)" in ast.unparse(f):
